@@ -363,8 +363,8 @@ func (c *Ctx) overlapAnchor(fn *ssa.Function, cmp *ssa.BinOp) *ssa.BasicBlock {
 func (c *Ctx) overlapPaths(fn *ssa.Function, anchor *ssa.BasicBlock) string {
 	ei := core.ErrorResultIndex(fn.Signature)
 	type st struct {
-		nilOf   map[string]bool // "other.min" ...
-		decided map[string]bool // "p1" (other.min vs self.max), "p2"
+		nilOf   map[string]bool        // "other.min" ...
+		decided map[string]bool        // "p1" (other.min vs self.max), "p2"
 		phis    map[*ssa.Phi]ssa.Value // what the merges passed on this path stand for
 	}
 	clone := func(s st) st {
@@ -485,7 +485,27 @@ func (c *Ctx) overlapPaths(fn *ssa.Function, anchor *ssa.BasicBlock) string {
 				truth := i == 0
 				ns := clone(s)
 				for _, cd := range expandForPath(x.Cond, truth) {
+					// a condition kept in a variable (`exclusive := a != nil && b != nil && *a > *b; if exclusive || ..`):
+					// on this path the merge stands for the value of the edge the path came over
+					for i := 0; i < 4; i++ {
+						phi, isPhi := cd.V.(*ssa.Phi)
+						if !isPhi {
+							break
+						}
+						known, ok := ns.phis[phi]
+						if !ok {
+							break
+						}
+						cd.V = known
+					}
+					if k, isConst := cd.V.(*ssa.Const); isConst && k.Value != nil && k.Value.Kind() == constant.Bool && constant.BoolVal(k.Value) != cd.True {
+						// the path contradicts the value it brought along: not a path
+						ns.nilOf["%infeasible"] = true
+					}
 					apply(&ns, cd)
+				}
+				if ns.nilOf["%infeasible"] {
+					continue
 				}
 				walkFrom(b, succ, ns)
 			}
